@@ -13,7 +13,8 @@ import SigpyVerif.Lemmas.C06Nd
   * interpolation / gridding: C07's generated `Gen.interp2` / `Gen.grid2`, `grid2_eq_transpose_interp2`,
     `transpose_pairing`, real weights.
   Remaining assumptions: the apodisation weights are real and the kernel is a real-valued function (`wt : Rat → ℝ`).
-  Three dimensions compose in exactly the same way (`Gen.interp3`, a triple Kronecker product) and are not written out.
+  Three dimensions and a leading batch axis: Props/C06Batch.lean (`nufft_adjoint_is_adjoint_{1,2,3}d_batch`); that the `(K, wt)`
+  parametrisation of the product weight covers separable real kernels (Kaiser–Bessel): Props/C06Kernel.lean.
 -/
 namespace SigpyVerif.C06
 open SigpyVerif Matrix ComplexConjugate
